@@ -202,6 +202,7 @@ class Execution(object):
         pass
 
     def close(self):
+        self.s.shutdown()
         self.w.cur = None
 
     # ---- projection
@@ -538,6 +539,7 @@ class KeyExecution(object):
         raise ValueError(op)
 
     def close(self):
+        self.s.shutdown()
         self.w.cur = None
         self.kw.cur = None
 
